@@ -1012,7 +1012,27 @@ impl<'t, 'a, 'g> Gen<'t, 'a, 'g> {
         for k in 0..n {
             let e = self.expr(&Ty::Num, 1);
             let in_block_ok = !(self.cfg.self_contained && self.gated("C14:gen-yield-in-block"));
-            match self.tape.below(5) {
+            match self.tape.below(10) {
+                5 if in_block_ok => {
+                    self.tag("gen:yield-in-shadowing-block");
+                    body.push(format!("{ind}let sh{k} = {e}; {{ let sh{k} = ({e}) + 1; yield sh{k}; }} yield sh{k};", ind = ind(i + 1), k = k, e = e));
+                }
+                6 if in_block_ok => {
+                    self.tag("gen:return-inside-block");
+                    body.push(format!("{}for (let j = 0; j < 3; j++) {{ let w = {} + j; yield w; if (j === 1) {{ return \"r{}\"; }} }}", ind(i + 1), e, k));
+                }
+                7 if in_block_ok => {
+                    self.tag("gen:throw-inside-block-caught-inside");
+                    body.push(format!("{}try {{ {{ let q = {}; yield q; throw new Error(\"gx{}\"); }} }} catch (ge) {{ let m = ge.message; yield m; }}", ind(i + 1), e, k));
+                }
+                8 if in_block_ok => {
+                    self.tag("gen:throw-inside-block-uncaught");
+                    body.push(format!("{}{{ let q = {}; yield q; if (q === q) {{ let z = 1; throw new RangeError(\"gu{}\"); }} }}", ind(i + 1), e, k));
+                }
+                9 if in_block_ok => {
+                    self.tag("gen:yield-in-switch-block");
+                    body.push(format!("{}switch ({}) {{ case 0: {{ let c0 = 1; yield c0; }} default: {{ let c1 = 2; yield c1; break; }} }}", ind(i + 1), k % 2));
+                }
                 0 if in_block_ok => {
                     self.tag("gen:yield-in-loop");
                     body.push(format!("{}for (let j = 0; j < 2; j++) {{ yield {} + j; }}", ind(i + 1), e));
@@ -1037,6 +1057,7 @@ impl<'t, 'a, 'g> Gen<'t, 'a, 'g> {
             body.push(format!("{}return {};", ind(i + 1), self.literal(&Ty::Str)));
         }
         self.leave_fn(saved);
+        let throws = body.iter().any(|b| b.contains("throw new RangeError(\"gu"));
         let decl = format!("{}function* {}() {{\n{}\n{}}}", ind(i), name, body.join("\n"), ind(i));
         let id = self.trace_id;
         self.trace_id += 1;
@@ -1067,6 +1088,11 @@ impl<'t, 'a, 'g> Gen<'t, 'a, 'g> {
             }
             _ => format!("{}__t({}, [...{}()]);", ind(i), id, name),
         };
+        if throws {
+            let id2 = self.trace_id;
+            self.trace_id += 1;
+            return format!("{}\n{}try {{\n{}\n{}}} catch (gerr) {{ __t({}, gerr.name + \":\" + gerr.message); }}", decl, ind(i), use_, ind(i), id2);
+        }
         format!("{}\n{}", decl, use_)
     }
 
